@@ -22,6 +22,7 @@ import (
 // of the old one: whatever the stack remembers about the old write must not decide the new one.
 
 type apWorld struct {
+	trackOld bool // messages of the previous connection are kept for stale verdicts
 	w        *world.World
 	f        api.FeatureLocalInterface
 	n        int
@@ -179,7 +180,7 @@ func (a *apWorld) apply(op string, judge bool) (viol []string, digest string, ef
 			a.conn = true
 			a.used = map[int]bool{}
 			for k, m := range a.msgs {
-				if !a.answered[k] {
+				if !a.answered[k] && a.trackOld {
 					a.oldMsgs[k] = m
 				}
 			}
@@ -237,23 +238,38 @@ func (a *apWorld) key() string {
 }
 
 func c12Drivers(thorough bool) []*engine.HDriver {
-	mk := func(n int, writes int) *engine.HDriver {
+	// add: a callback may be registered late (it then answers like the others); old: verdicts for the messages of
+	// the previous connection. Both multiply the state space, the quick tier gives each its own small driver.
+	mk := func(n int, writes int, add, old bool) *engine.HDriver {
 		var alpha []string
 		for k := 0; k < writes; k++ {
 			alpha = append(alpha, fmt.Sprintf("w:%d", k))
 		}
+		cbs := n
+		if add {
+			cbs++
+		}
 		for k := 0; k < writes; k++ {
-			for cb := 0; cb < n; cb++ {
+			for cb := 0; cb < cbs; cb++ {
 				alpha = append(alpha, fmt.Sprintf("ap:%d:%d", cb, k), fmt.Sprintf("dn:%d:%d", cb, k))
 			}
 		}
-		alpha = append(alpha, "fire", "disc", "reconn", "entrm2", "addcb")
-		for cb := 0; cb < n; cb++ {
-			alpha = append(alpha, fmt.Sprintf("apold:%d:0", cb))
+		alpha = append(alpha, "fire", "disc", "reconn", "entrm2")
+		name := fmt.Sprintf("approval-histories callbacks=%d writes=%d", n, writes)
+		if add {
+			alpha = append(alpha, "addcb")
+			name += " +late-callback"
 		}
-		return &engine.HDriver{Name: fmt.Sprintf("approval-histories callbacks=%d writes=%d", n, writes), Alphabet: alpha,
+		if old {
+			for cb := 0; cb < n; cb++ {
+				alpha = append(alpha, fmt.Sprintf("apold:%d:0", cb))
+			}
+			name += " +stale-verdicts"
+		}
+		return &engine.HDriver{Name: name, Alphabet: alpha,
 			Step: func(hist []string, op string) engine.HStep {
 				a := newAPWorld(n)
+				a.trackOld = old
 				for _, h := range hist {
 					a.apply(h, false)
 				}
@@ -266,7 +282,7 @@ func c12Drivers(thorough bool) []*engine.HDriver {
 			}}
 	}
 	if thorough {
-		return []*engine.HDriver{mk(2, 2), mk(3, 1), mk(1, 2)}
+		return []*engine.HDriver{mk(2, 2, false, false), mk(3, 1, false, false), mk(1, 2, true, false), mk(1, 1, false, true), mk(2, 1, true, true), mk(2, 2, true, true), mk(3, 1, true, true)}
 	}
-	return []*engine.HDriver{mk(2, 2), mk(3, 1)}
+	return []*engine.HDriver{mk(2, 2, false, false), mk(3, 1, false, false), mk(1, 2, true, false), mk(1, 1, false, true), mk(2, 1, true, true)}
 }
